@@ -1,3 +1,4 @@
+import SSVerif.Generated.S3Consts
 /-!
 # M16 — the byte-level reader of `src/s3file.c` and the read plans of the acoustic-model loaders
 
@@ -165,7 +166,7 @@ def get3d (s : S) (k : Nat) : Res (S × Nat × Nat × Nat × Arr) := do
 /-! ## Header parsing (s3file.c:152-327) -/
 
 /-- `isspace_c` (strfuncs.c:52): `strchr(" \t\n\r\v\f", ch) != NULL`, which is also true for NUL -/
-def isSpace (b : UInt8) : Bool := b = 32 || b = 9 || b = 10 || b = 13 || b = 11 || b = 12 || b = 0
+def isSpace (b : UInt8) : Bool := Generated.s3Blanks.contains b
 
 /-- the scan of `s3file_nextline`: first `p' ≥ p` with `p' = end` or `byte p' = '\n'` -/
 def scanNl (f : File) : Nat → Nat → Res Nat
@@ -217,11 +218,12 @@ def strncmpEq (f : File) (off : Nat) (lit : List UInt8) : Nat → Nat → Res Bo
     else if a = 0 then .ok true
     else strncmpEq f off lit n (i + 1)
 
-/-- string literals of the C code as bytes (kept as explicit lists so that the kernel can compute with them) -/
-def litEndhdr : List UInt8 := [101, 110, 100, 104, 100, 114]
-def litEndComment : List UInt8 := [42, 101, 110, 100, 95, 99, 111, 109, 109, 101, 110, 116, 42, 10]
-def litS3 : List UInt8 := [115, 51, 10]
-def litChksum0 : List UInt8 := [99, 104, 107, 115, 117, 109, 48]
+/-- string literals of the C code as bytes; those of s3file.c are regenerated from the sources
+(`Generated/S3Consts.lean`, tools/gen_s3file.py) -/
+def litEndhdr : List UInt8 := Generated.s3Endhdr
+def litEndComment : List UInt8 := Generated.s3EndComment
+def litS3 : List UInt8 := Generated.s3Sniff
+def litChksum0 : List UInt8 := Generated.s3ChksumName
 def litVersion : List UInt8 := [118, 101, 114, 115, 105, 111, 110]
 def litFeatureCount : List UInt8 := [102, 101, 97, 116, 117, 114, 101, 95, 99, 111, 117, 110, 116, 32]
 def litMixtureCount : List UInt8 := [109, 105, 120, 116, 117, 114, 101, 95, 99, 111, 117, 110, 116, 32]
@@ -286,11 +288,14 @@ def oldFmt (f : File) : Nat → Nat → Res Nat
     | some np =>
       if ← strncmpEq f p litEndComment (np - p) 0 then .ok np else oldFmt f fuel np
 
+def bswap32 (v : Nat) : Nat :=
+  (v % 256) * 16777216 + (v / 256 % 256) * 65536 + (v / 65536 % 256) * 256 + v / 16777216 % 256
+
 /-- `swap_check` (s3file.c:126-150): the 32-bit byte-order magic, read unswapped, not checksummed -/
 def swapCheck (s : S) : Res (S × Bool) := do
   let (s', magic) ← get32 { s with swap := false, chk := false } "Cannot read BYTEORDER MAGIC NO."
-  if magic = 0x11223344 then .ok (s', false)
-  else if magic = 0x44332211 then .ok (s', true)
+  if magic = Generated.s3ByteOrderMagic then .ok (s', false)
+  else if bswap32 magic = Generated.s3ByteOrderMagic then .ok (s', true)
   else .reject "Bad BYTEORDER MAGIC NO"
 
 /-- is the first line `"s3\n"`?  D19f: compared only when the line has 3 bytes (pinned: `strncmp`
@@ -515,9 +520,6 @@ structure SdOut where
   endPtr : Nat
 deriving Repr, DecidableEq
 
-def bswap32 (v : Nat) : Nat :=
-  (v % 256) * 16777216 + (v / 256 % 256) * 65536 + (v / 65536 % 256) * 256 + v / 16777216 % 256
-
 /-- the title length "is extremely bogus": native or byte-swapped value in 1..999 decides `do_swap` -/
 def sdTitleLen (s : S) (t : Nat) : Res (S × Nat) :=
   if 1 ≤ toI32 t ∧ toI32 t ≤ 999 then .ok (s, (toI32 t).toNat)
@@ -564,5 +566,33 @@ def sendumpPlan (f : File) (gFeat gDensity mdefSen : Nat) : Res SdOut := do
   let dataOff := s.ptr
   let s ← sdRows step (gFeat * gDensity) s
   .ok { rows := gDensity, cols := c.toNat, clust := nClust, dataOff, endPtr := s.ptr }
+
+/-! ### `read_mixw` (ptm_mgau.c:611-690 with D19g) -/
+
+structure MixwOut where
+  nSen : Nat
+  nFeat : Nat
+  nComp : Nat
+  n : Nat
+deriving Repr, DecidableEq
+
+/-- `read_mixw`; `gFeat`, `gDensity` from the codebooks.  The C function does not verify the
+checksum.  `*out_mixw = ckd_calloc_3d(g->n_feat, g->n_density, n_sen)`: cell `[f][c][i]` with
+`f < n_feat = g->n_feat`, `c < n_comp = g->n_density`, `i < n_sen`. -/
+def mixwPlan (f : File) (gFeat gDensity : Nat) : Res MixwOut := do
+  let s ← parseHeader (S.init f)
+  let (s, a) ← get32 s "s3file_get (arraysize) failed"
+  let (s, b) ← get32 s "s3file_get (arraysize) failed"
+  let (s, c) ← get32 s "s3file_get (arraysize) failed"
+  let (s, d) ← get32 s "s3file_get (arraysize) failed"
+  if toI32 b ≠ (gFeat : Int) then .reject "#Features streams mismatch" else
+  if toI32 c ≠ (gDensity : Int) then .reject "#Mixture components mismatch" else
+  let ns := (toI32 a).toNat; let n := (toI32 d).toNat
+  if toI32 a ≤ 0 ∨ toI32 d ≤ 0 ∨ ns * gFeat > n ∨ n ≠ ns * gFeat * gDensity then
+    .reject "#float32s doesn't match header dimensions" else
+  if n > s.avail / 4 then .reject "Mixture weights file truncated" else do
+  rowsInside (ns * gFeat) gDensity n (ns * gFeat)
+  let _ ← getRows "s3file_get (arraydata) failed" gDensity (ns * gFeat) s
+  .ok { nSen := ns, nFeat := gFeat, nComp := gDensity, n }
 
 end SSVerif.S3file
